@@ -59,8 +59,8 @@ func loadKnownFindings() []knownFinding {
 
 func violationKey(spec symx.CaseSpec, v *symx.Violation) string {
 	label := v.Case
-	if label == "" {
-		label = "-"
+	if label == "" || v.Kind == "race" {
+		label = "-" // races are identified by the pair of code sites
 	}
 	id := v.ID
 	if strings.HasPrefix(id, "panic:native:") {
@@ -131,6 +131,7 @@ func cmdCheck(args []string) int {
 		fatal(fmt.Errorf("unknown property %s", id))
 	}
 	start := time.Now()
+	schedReplay = prop.sched
 	eng := loadEngine()
 	harnessNamesCache = allHarnessNames(eng)
 	loadT := time.Since(start)
@@ -185,15 +186,33 @@ func cmdCheck(args []string) int {
 	if !canaryOK {
 		inconclusive = append(inconclusive, "canary: the deliberately false assertion was not found and reproduced")
 	}
-	for _, m := range rep.unconfirmed {
-		inconclusive = append(inconclusive, "ENGINE-MISMATCH (counterexample did not reproduce natively): "+m)
+	known := loadKnownFindings()
+	isKnown := func(key string) bool {
+		for _, k := range known {
+			if k.Property == id && k.Key == key {
+				return true
+			}
+		}
+		return false
+	}
+	for _, u := range rep.unconfirmedV {
+		if u.Spec.Harness == "VH_Canary" {
+			continue
+		}
+		if isKnown(violationKey(u.Spec, u.V)) {
+			// a listed finding that the engine found again; its native
+			// confirmation (established when it was listed) can be
+			// timing dependent for race-detector runs
+			confirmed = append(confirmed, u)
+			continue
+		}
+		inconclusive = append(inconclusive, "ENGINE-MISMATCH (counterexample did not reproduce natively): "+u.Detail)
 	}
 	for _, m := range rep.mismatches {
 		inconclusive = append(inconclusive, "ENGINE-MISMATCH: "+m)
 	}
 
 	// classify violations against the known-findings list
-	known := loadKnownFindings()
 	knownHit := map[string]knownFinding{}
 	type newViol struct {
 		key string
@@ -243,7 +262,7 @@ func cmdCheck(args []string) int {
 		case "write", "race":
 			expect = "race"
 		}
-		rf := replayFile{Property: id, Key: nv.key, Harness: nv.c.Spec.Harness, Params: nv.c.Spec.Params, Vector: nv.c.V.Vector, Kinds: nv.c.V.Kinds, Expect: expect, Msg: nv.c.V.Msg + " | native: " + nv.c.Native + " " + nv.c.Detail}
+		rf := replayFile{Sched: schedOf(nv.c.V, prop.sched), Property: id, Key: nv.key, Harness: nv.c.Spec.Harness, Params: nv.c.Spec.Params, Vector: nv.c.V.Vector, Kinds: nv.c.V.Kinds, Expect: expect, Msg: nv.c.V.Msg + " | native: " + nv.c.Native + " " + nv.c.Detail}
 		b, _ := json.MarshalIndent(rf, "", " ")
 		os.WriteFile(path, b, 0o644)
 		fmt.Printf("VIOLATION property=%s replay=%s\n", id, path)
@@ -371,4 +390,14 @@ func cmdSolverDiff(args []string) int {
 func cmdSelftest(args []string) int {
 	fmt.Println("selftest: not built yet")
 	return 2
+}
+
+func schedOf(v *symx.Violation, on bool) []int {
+	if !on {
+		return nil
+	}
+	if v.Sched == nil {
+		return []int{}
+	}
+	return v.Sched
 }
